@@ -88,10 +88,67 @@ def has_constructs(tree) -> bool:
     return False
 
 
+# ---- call histories ---------------------------------------------------------------------------------------
+# future.transform is memoised (the property's anchored state: "functools.cache on (annotation, union)"), so
+# what a call returns may depend on the calls made before it in the process.  The statement is about EVERY
+# annotation string whatever was transformed earlier; a failing input is therefore a history: the calls
+# [(annotation, union | None), ...] made from a fresh module state, then the input.
+
+LOG: list = []            # every call the harness made through call(), in order (None = default union)
+LOGGING = True
+
+
+def call(s: str, union=None):
+    """the one place the harness calls future.transform"""
+    from typelib.py import future
+    if LOGGING:
+        LOG.append((s, union))
+    if union is None:
+        return future.transform(s)
+    return future.transform(s, union=union)
+
+
+_MODULE_CODE = None
+
+
+def reset_state():
+    """a fresh module state (whatever the memo is made of: functools cache, module-level dict ...): the module
+    body is executed again in the module's namespace, which is what importlib.reload does, without re-reading
+    and re-compiling the source every time"""
+    global _MODULE_CODE
+    from typelib.py import future
+    if _MODULE_CODE is None:
+        with open(future.__file__, encoding="utf-8") as fh:
+            _MODULE_CODE = compile(fh.read(), future.__file__, "exec", dont_inherit=True)
+    exec(_MODULE_CODE, future.__dict__)
+
+
+def run_history(history):
+    for h in history:
+        try:
+            call(h[0], h[1] if len(h) > 1 else None)
+        except Exception:   # noqa: BLE001   a history element that raises is just a call that raised
+            pass
+
+
+def check_history(history, s: str, annotation: bool) -> list[dict]:
+    """the statement for `s` after the calls of `history`, from a fresh state"""
+    global LOGGING
+    keep, LOGGING = LOGGING, False
+    try:
+        reset_state()
+        run_history(history)
+        fs = check_string(s, annotation)
+    finally:
+        LOGGING = keep
+    for f in fs:
+        f["history"] = [list(h) for h in history]
+    return fs
+
+
 def check_string(s: str, annotation: bool, transform=None) -> list[dict]:
     if transform is None:
-        from typelib.py import future
-        transform = future.transform
+        transform = call
     try:
         tree = ast.parse(s, mode="eval")
     except (SyntaxError, ValueError, RecursionError, MemoryError):
@@ -131,11 +188,17 @@ def check_string(s: str, annotation: bool, transform=None) -> list[dict]:
         t2 = "raised " + repr(e)
     if t2 != t:
         fails.append(dict(base, clause="fixpoint", symptom="transform(transform(s)) != transform(s)", got=t2, expected=t))
-    # meaning: both sides evaluate to the same structure
+    # meaning: both sides evaluate to the same structure.  The input is read by the interpreter; when the
+    # interpreter's own `|` rejects the operands (`"Foo" | None`: str | NoneType is a TypeError on 3.12 -- the very
+    # annotations transform exists for), by the statement's reading "typing.Union for |" (L.evaluate_ref).
     try:
         v = L.evaluate(s, ns())
-    except Exception:   # noqa: BLE001  the input does not evaluate to a type here: nothing is demanded
-        return fails
+    except Exception:   # noqa: BLE001
+        try:
+            v = L.evaluate_ref(s, ns())
+            base = dict(base, input_read_by="reference reading: a | b = typing.Union[a, b]")
+        except Exception:   # noqa: BLE001  the input does not evaluate to a type under either reading: nothing is demanded
+            return fails
     try:
         w = L.evaluate(t, ns())
     except Exception as e:   # noqa: BLE001
@@ -163,9 +226,20 @@ def evaluates(s: str) -> bool:
         return False
 
 
+def evaluates_ref(s: str) -> bool:
+    try:
+        L.evaluate_ref(s, ns())
+        return True
+    except Exception:   # noqa: BLE001
+        return False
+
+
 def evaluates_to_type(s: str) -> bool:
     try:
         v = L.evaluate(s, ns())
     except Exception:   # noqa: BLE001
-        return False
+        try:
+            v = L.evaluate_ref(s, ns())
+        except Exception:   # noqa: BLE001
+            return False
     return not isinstance(v, (list, tuple, dict, set, int, float, bytes))
